@@ -283,8 +283,8 @@ def r4(ctx):
 
 
 def r_enum(ctx):
-    from .common import enum_identity
-    enum_identity(ctx, "C07.R5", ('connection',))
+    from .common import repo_idioms
+    repo_idioms(ctx, "C07.R5", ('connection',))
 
 
 RULES = [("C07.R1", r1), ("C07.R2", r2), ("C07.R3", r3), ("C07.R4", r4), ("C07.R5", r_enum)]
